@@ -22,27 +22,45 @@ CHECKS = {
  "C11": ("exploration", "exhaustive enumeration of all bound pairs over structure-derived endpoint sets on library-written and foreign archives, against the full content filtered by RangeBounds::contains",
          "For 9 archives (with and without leaf directories, runs straddling leaf boundaries, a leaf pointer below its leaf's first id) every pair (Included|Excluded|Unbounded)(v) x (Included|Excluded|Unbounded)(v) over v in {0,1,u64::MAX-1,u64::MAX, leaf first ids +-1, run starts/ends +-1, max id +-1} - 14.5k ranges incl. empty and inverted - through the three partial openers and both directory utilities; ids, bytes and absent ids compared; failure or panic is a violation.",
          "full content taken from the independent spec reader; overflow checks on", "4/C11"),
+ "C12": ("exploration", "bounded-exhaustive differential enumeration: both API twins on the same inputs (C01/C03/C05/C06/C09 alphabets and the C19 rejection inputs), values and hook snapshots compared",
+         "All small maps + metadata/settings alphabets (written by both writers, read by both readers, full and four range-filtered opens, byte identity for Compression::None), the foreign product, all directory lists of <= 2 entries incl. zero-length rejections, the write_directories crossing sweep, 45k header images incl. every enum/version code and truncation: equal values or errors on both sides.",
+         "streams are ready-immediately in-memory cursors (fragmentation/Pending is C13)", "4/C12"),
  "C13": ("model_checking", "stateless deviation-bounded exploration (CHESS-style iterative bounding) of every stream call's answer (short transfer sizes, Pending) on the real sync and async code paths; all compositions for tiny objects; uniform schedules",
          "152 scenarios (header/directory/archive read+write, lookups, backing-reader re-write, directory utilities, codec adapters; 4 codecs; sync+async; leaf-spill writers): all executions with <= 3 (quick) / 4 (thorough) deviations where the count fits the budget (>= 1 for the 7.7k-call spill writers), every transfer size at every call for directories of <= 17/21 bytes, and uniform max-c-bytes / always-Pending schedules; result, stream image and final position must equal the unfragmented run. Replay divergence is a machinery error (exit 2).",
          "controlled stream semantics in DESIGN.md section 8; stays writable after poll_close", "4/C13"),
+ "C14": ("exploration", "bounded-exhaustive enumeration of byte strings and of ALL write-split compositions (inputs <= 12 bytes) through the real codec helpers, decoded by the upstream crates and an unrelated inflate",
+         "Empty, all 256 single bytes, all strings over {00,FF,41} up to length 6, three 12-byte strings with every composition of write sizes (275k streamed encodes), zeros/xorshift at 4095..2^20+1 (5 MiB thorough) and data.json with fixed chunk sizes; x 4 codecs x one-shot/streaming x sync/async: round trip, strict decode by flate2/brotli/zstd called directly, gzip also by the harness's own inflate+CRC32+ISIZE; Unknown is an error from all six functions.",
+         "harness/src/spec/inflate.rs is the unrelated gzip implementation", "4/C14"),
  "C15": ("fault_enumeration", "exhaustive fail-stop fault enumeration: for each scenario's fault-free log of N stream calls, every k<N is executed with call k and all later calls failing",
          "Every fault point of 152 single-call scenarios (open, open+one lookup, archive/directory/header write, re-write over a failing backing reader, read_/write_directories; 4 codecs; sync+async; leaf-spill writers) - ~10k faulty executions: the call must return Err, or Ok only with the complete image/value; never panic.",
          "fail-stop faults only", "4/C15"),
+ "C16": ("model_checking", "stateless enumeration of ALL edit histories up to a length bound WITHOUT state merging, grouped by final logical content; all insertion-order permutations; three provenances; separate OS processes; rewrite identity over the C01 corpus",
+         "All 16k (quick) / 177k (thorough) operation sequences of length <= 4/5 over add/remove/save+reopen from fresh sync and async objects: every group of histories with equal final content must serialise to one byte image; all 720/5040 insertion orders; every small map written from memory, reopened and mixed; 64 archives written in 4/16 separate processes (fresh hash seeds); to_writer(from_bytes(b)) == b for the whole C01 corpus incl. coordinate and float-metadata alphabets; foreign archives idempotent after one rewrite.",
+         "sync and async writers use different encoders and are never compared with each other", "4/C16"),
  "C17": ("fault_enumeration", "exhaustive crash-point enumeration over the recorded write/seek log of archive writes; every prefix image is handed to both readers",
          "36 write histories (0/1/3/60 tiles x 4 codecs, leaf-spill archives; sync+async writer): for every k in [0,N] (8.3k crash points) the image after k operations must be rejected unless byte-identical to the complete archive, in which case it must read back as the logical archive.",
          "each write atomic and in program order", "4/C17"),
  "C18": ("exploration", "exhaustive product of start positions x pre-fill modes x archives x writers against the archive written at position 0",
          "P in {0,1,10,126,127,128,4096,16384,70000} x {empty, pattern of P bytes, pattern of P+100000 bytes} x {0 tiles, 3 tiles, leaf spill} x codecs x {sync,async}: prefix untouched, [P,P+L) byte-identical to the P=0 archive, final position P+L, image[P..] opens to the logical archive.",
          "in-memory seekable stream", "4/C18"),
+ "C20": ("exploration", "bounded-exhaustive enumeration of archive layouts opened over a recording stream; the set of byte ranges returned to the library is the observation",
+         "7k archives quick (library-written incl. leaf spill; the foreign product with tile data placed directly behind every directory/metadata section and sentinel-filled gaps) x full and three range-filtered opens x sync/async, then a lookup of every addressed id and absent neighbours: open touches only header/metadata/root/leaf sections and never tile data; each lookup's returned ranges unite to exactly the tile's range; absent ids read nothing.",
+         "only which bytes are returned is constrained, not how many calls are made", "4/C20"),
  "C19": ("model_checking", "rejected-operation invariant checked in every state of the explicit-state history search; exhaustive position enumeration for the directory/metadata/compression clauses",
          "add_tile(id, empty) in three argument forms for every id in every reachable state of the C04 BFS (2.2M refused adds quick): Err and snapshot + observations unchanged; zero-length entry at every index of directories of size 1..4 (+1000-entry lists) x 4 codecs x sync/async for parser and serialiser, archives carrying one in root or leaf; every non-object JSON kind as metadata; Unknown compression through writer, opener, directory codec and the six helpers.",
          "spec encoder produces the offending directories", "4/C19"),
  "C05": ("exploration", "bounded-exhaustive enumeration of entry lists (all valid lists <=2 entries over boundary alphabets, <=3 reduced) on the real codec vs an independent spec codec",
          "Every valid directory of <=2 entries over boundary value sets (every case of the offset rule at index 0 and >0), every 3-entry list over a reduced set and three parametric families up to 10^5 entries, x4 compressions x sync/async: parse(serialise(d))==d, serialised bytes == independent spec encoder, parser decodes the spec encoder's output. Exhaustive within those alphabets; no sampling.",
          "trusts harness/src/spec/{varint,dir,codec}.rs (written from the v3 spec) and the upstream codec crates as independent decoders", "4/C05"),
+ "C06": ("exploration", "exhaustive parameter sweep of list sizes across the 16 KiB root window (every n in [n*-40,n*+80] per family and codec) through the real directory writer, resolved by the independent decoder",
+         "Three entry-list families x 4 codecs: the crossing point n* is located by bisection and every n in the window plus {0,1,2,n*/2,2n*,10n*} is run x initial leaf size {default,1,7,4096,>n} x {sync,async} at stream positions {0,127,1000}: root <= 16257 bytes, spill iff the full list does not fit, only leaf pointers in a spilled root, pointer id = leaf's first id, exact offsets/lengths tiling the leaf section, concatenation == input, read_directories over root+leaves == run-expanded input; plus whole-archive writes over the same window validated by the spec reader.",
+         "fits/does-not-fit is judged by the same writer flavour's single-directory encoding size", "4/C06"),
  "C07": ("exploration", "exhaustive enumeration of all (z,x,y) and all ids up to a zoom bound plus boundary products, against the spec's rotate/flip algorithm; lookup clause by exhaustive probe product",
          "All points and all ids of zooms 0..11 (quick) / 0..15 (thorough) forward, inverse, adjacency and children clauses; boundary products for zooms up to 31; ids around every zoom-block edge; 9k out-of-grid / z>=32 lookups against an archive holding every id those probes are mapped to.",
          "trusts harness/src/spec/hilbert.rs (the specification's reference loop, checked against its published vectors)", "4/C07"),
+ "C08": ("exploration", "bounded-exhaustive enumeration of deterministic neighbourhoods (every prefix, every boundary byte substitution, every boundary deviation of every varint/header field) of valid archives plus a hazard corpus, executed in isolated worker processes",
+         "31k inputs quick (every prefix and 5 substitutions per byte of 12 base archives, 9 boundary values in every varint field of every directory with lengths fixed up or stale, 10 values in every header u64, all 256 codes of enum/zoom/version bytes, 70+ hand-built hazards incl. counts to 2^64-1, wrapping sums, zero first offset, offsets near 2^64, self-pointing leaf, cycles, chains to 10^4; thorough: all pairs of deviations) through 20+ reader/lookup/partial-open/re-write/async calls each, inside workers with RLIMIT_AS 8 GiB, 8 MiB stack and a 20 s alarm: any panic, abort, stack overflow or timeout is attributed to the input and call in flight.",
+         "inputs declaring more than 2^22 tiles/steps (lenient reference walk) are skipped and counted, as the property allows; overflow checks on", "4/C08"),
  "C09": ("exploration", "exhaustive sweep of stored coordinate values (all 2^32 in thorough) and boundary enumeration of every header field, against a hand-written LE codec and an exact-rational rounding oracle",
          "decode->encode byte identity for every stored coordinate value (quick: 1.3M incl. all |v|<=2^17; thorough: all 2^32 per field), degrees->stored against the exact nearest multiple of 1e-7 (integer arithmetic on mantissa/exponent), every u64 field one-hot+boundaries, every code 0..255 of each enum/version/clustered byte, every truncation 0..126, trailing bytes; sync and async paths.",
          "trusts harness/src/spec/{header,latlng}.rs", "4/C09"),
